@@ -10,73 +10,73 @@ open MongoModel.Vocab
 
 /-! distinct classifications -/
 def cls_0 : NameClass :=
-  { op := true, comment := false, expr := false, not_ := false, all := false, exists_ := false, neNin := false, each := false, needsDecimal := false, operatorMap := false, logical := false, logicalConst := false, topNI := false, fieldNI := false, updater := false, updateInline := false, updateChecked := false, pushMod := false, stageImpl := false, exprHit := none, exprNI := false, grouping := false, groupInline := false, typeImpl := false, typeNone := false }
+  { op := true, comment := false, expr := false, not_ := false, all := false, exists_ := false, neNin := false, each := false, needsDecimal := false, operatorMap := false, logical := false, logicalConst := false, topNI := false, fieldNI := false, updater := false, updateInline := false, updateChecked := false, pushMod := false, stageImpl := false, exprHit := none, exprNI := false, grouping := false, groupInline := false, groupChecked := false, typeImpl := false, typeNone := false }
 def cls_1 : NameClass :=
-  { op := false, comment := false, expr := false, not_ := false, all := false, exists_ := false, neNin := false, each := false, needsDecimal := false, operatorMap := false, logical := false, logicalConst := false, topNI := false, fieldNI := false, updater := false, updateInline := false, updateChecked := false, pushMod := false, stageImpl := false, exprHit := none, exprNI := false, grouping := false, groupInline := false, typeImpl := false, typeNone := false }
+  { op := false, comment := false, expr := false, not_ := false, all := false, exists_ := false, neNin := false, each := false, needsDecimal := false, operatorMap := false, logical := false, logicalConst := false, topNI := false, fieldNI := false, updater := false, updateInline := false, updateChecked := false, pushMod := false, stageImpl := false, exprHit := none, exprNI := false, grouping := false, groupInline := false, groupChecked := false, typeImpl := false, typeNone := false }
 def cls_2 : NameClass :=
-  { op := true, comment := false, expr := false, not_ := false, all := false, exists_ := false, neNin := true, each := false, needsDecimal := false, operatorMap := true, logical := false, logicalConst := false, topNI := false, fieldNI := false, updater := false, updateInline := false, updateChecked := false, pushMod := false, stageImpl := false, exprHit := some true, exprNI := false, grouping := false, groupInline := false, typeImpl := false, typeNone := false }
+  { op := true, comment := false, expr := false, not_ := false, all := false, exists_ := false, neNin := true, each := false, needsDecimal := false, operatorMap := true, logical := false, logicalConst := false, topNI := false, fieldNI := false, updater := false, updateInline := false, updateChecked := false, pushMod := false, stageImpl := false, exprHit := some true, exprNI := false, grouping := false, groupInline := false, groupChecked := false, typeImpl := false, typeNone := false }
 def cls_3 : NameClass :=
-  { op := true, comment := false, expr := false, not_ := false, all := false, exists_ := false, neNin := false, each := false, needsDecimal := false, operatorMap := true, logical := false, logicalConst := false, topNI := false, fieldNI := false, updater := false, updateInline := false, updateChecked := false, pushMod := false, stageImpl := false, exprHit := some true, exprNI := false, grouping := false, groupInline := false, typeImpl := false, typeNone := false }
+  { op := true, comment := false, expr := false, not_ := false, all := false, exists_ := false, neNin := false, each := false, needsDecimal := false, operatorMap := true, logical := false, logicalConst := false, topNI := false, fieldNI := false, updater := false, updateInline := false, updateChecked := false, pushMod := false, stageImpl := false, exprHit := some true, exprNI := false, grouping := false, groupInline := false, groupChecked := false, typeImpl := false, typeNone := false }
 def cls_4 : NameClass :=
-  { op := true, comment := false, expr := false, not_ := false, all := false, exists_ := false, neNin := false, each := false, needsDecimal := false, operatorMap := false, logical := false, logicalConst := false, topNI := false, fieldNI := false, updater := false, updateInline := false, updateChecked := false, pushMod := false, stageImpl := false, exprHit := some true, exprNI := false, grouping := false, groupInline := false, typeImpl := false, typeNone := false }
+  { op := true, comment := false, expr := false, not_ := false, all := false, exists_ := false, neNin := false, each := false, needsDecimal := false, operatorMap := false, logical := false, logicalConst := false, topNI := false, fieldNI := false, updater := false, updateInline := false, updateChecked := false, pushMod := false, stageImpl := false, exprHit := some true, exprNI := false, grouping := false, groupInline := false, groupChecked := false, typeImpl := false, typeNone := false }
 def cls_5 : NameClass :=
-  { op := true, comment := false, expr := false, not_ := false, all := false, exists_ := false, neNin := false, each := false, needsDecimal := false, operatorMap := false, logical := true, logicalConst := false, topNI := false, fieldNI := false, updater := false, updateInline := false, updateChecked := false, pushMod := false, stageImpl := false, exprHit := some true, exprNI := false, grouping := false, groupInline := false, typeImpl := false, typeNone := false }
+  { op := true, comment := false, expr := false, not_ := false, all := false, exists_ := false, neNin := false, each := false, needsDecimal := false, operatorMap := false, logical := true, logicalConst := false, topNI := false, fieldNI := false, updater := false, updateInline := false, updateChecked := false, pushMod := false, stageImpl := false, exprHit := some true, exprNI := false, grouping := false, groupInline := false, groupChecked := false, typeImpl := false, typeNone := false }
 def cls_6 : NameClass :=
-  { op := false, comment := false, expr := false, not_ := false, all := false, exists_ := false, neNin := false, each := false, needsDecimal := false, operatorMap := false, logical := false, logicalConst := false, topNI := false, fieldNI := false, updater := false, updateInline := false, updateChecked := false, pushMod := false, stageImpl := false, exprHit := none, exprNI := false, grouping := false, groupInline := false, typeImpl := true, typeNone := false }
+  { op := false, comment := false, expr := false, not_ := false, all := false, exists_ := false, neNin := false, each := false, needsDecimal := false, operatorMap := false, logical := false, logicalConst := false, topNI := false, fieldNI := false, updater := false, updateInline := false, updateChecked := false, pushMod := false, stageImpl := false, exprHit := none, exprNI := false, grouping := false, groupInline := false, groupChecked := false, typeImpl := true, typeNone := false }
 def cls_7 : NameClass :=
-  { op := true, comment := false, expr := false, not_ := false, all := false, exists_ := false, neNin := false, each := false, needsDecimal := false, operatorMap := false, logical := false, logicalConst := false, topNI := false, fieldNI := false, updater := true, updateInline := false, updateChecked := true, pushMod := false, stageImpl := false, exprHit := none, exprNI := false, grouping := false, groupInline := false, typeImpl := false, typeNone := false }
+  { op := true, comment := false, expr := false, not_ := false, all := false, exists_ := false, neNin := false, each := false, needsDecimal := false, operatorMap := false, logical := false, logicalConst := false, topNI := false, fieldNI := false, updater := true, updateInline := false, updateChecked := true, pushMod := false, stageImpl := false, exprHit := none, exprNI := false, grouping := false, groupInline := false, groupChecked := false, typeImpl := false, typeNone := false }
 def cls_8 : NameClass :=
-  { op := true, comment := false, expr := false, not_ := false, all := false, exists_ := false, neNin := false, each := false, needsDecimal := false, operatorMap := false, logical := false, logicalConst := false, topNI := false, fieldNI := false, updater := false, updateInline := false, updateChecked := false, pushMod := false, stageImpl := false, exprHit := some true, exprNI := false, grouping := true, groupInline := false, typeImpl := false, typeNone := false }
+  { op := true, comment := false, expr := false, not_ := false, all := false, exists_ := false, neNin := false, each := false, needsDecimal := false, operatorMap := false, logical := false, logicalConst := false, topNI := false, fieldNI := false, updater := false, updateInline := false, updateChecked := false, pushMod := false, stageImpl := false, exprHit := some true, exprNI := false, grouping := true, groupInline := false, groupChecked := true, typeImpl := false, typeNone := false }
 def cls_9 : NameClass :=
-  { op := true, comment := false, expr := false, not_ := false, all := true, exists_ := false, neNin := false, each := false, needsDecimal := false, operatorMap := true, logical := false, logicalConst := false, topNI := false, fieldNI := false, updater := false, updateInline := false, updateChecked := false, pushMod := false, stageImpl := false, exprHit := none, exprNI := false, grouping := false, groupInline := false, typeImpl := false, typeNone := false }
+  { op := true, comment := false, expr := false, not_ := false, all := true, exists_ := false, neNin := false, each := false, needsDecimal := false, operatorMap := true, logical := false, logicalConst := false, topNI := false, fieldNI := false, updater := false, updateInline := false, updateChecked := false, pushMod := false, stageImpl := false, exprHit := none, exprNI := false, grouping := false, groupInline := false, groupChecked := false, typeImpl := false, typeNone := false }
 def cls_10 : NameClass :=
-  { op := false, comment := false, expr := false, not_ := false, all := false, exists_ := false, neNin := false, each := false, needsDecimal := false, operatorMap := false, logical := false, logicalConst := false, topNI := false, fieldNI := false, updater := false, updateInline := false, updateChecked := false, pushMod := false, stageImpl := false, exprHit := none, exprNI := false, grouping := false, groupInline := false, typeImpl := false, typeNone := true }
+  { op := false, comment := false, expr := false, not_ := false, all := false, exists_ := false, neNin := false, each := false, needsDecimal := false, operatorMap := false, logical := false, logicalConst := false, topNI := false, fieldNI := false, updater := false, updateInline := false, updateChecked := false, pushMod := false, stageImpl := false, exprHit := none, exprNI := false, grouping := false, groupInline := false, groupChecked := false, typeImpl := false, typeNone := true }
 def cls_11 : NameClass :=
-  { op := true, comment := false, expr := false, not_ := false, all := false, exists_ := false, neNin := false, each := false, needsDecimal := false, operatorMap := false, logical := false, logicalConst := false, topNI := false, fieldNI := false, updater := true, updateInline := false, updateChecked := true, pushMod := false, stageImpl := false, exprHit := some true, exprNI := false, grouping := true, groupInline := false, typeImpl := false, typeNone := false }
+  { op := true, comment := false, expr := false, not_ := false, all := false, exists_ := false, neNin := false, each := false, needsDecimal := false, operatorMap := false, logical := false, logicalConst := false, topNI := false, fieldNI := false, updater := true, updateInline := false, updateChecked := true, pushMod := false, stageImpl := false, exprHit := some true, exprNI := false, grouping := true, groupInline := false, groupChecked := true, typeImpl := false, typeNone := false }
 def cls_12 : NameClass :=
-  { op := true, comment := false, expr := false, not_ := false, all := false, exists_ := false, neNin := true, each := false, needsDecimal := false, operatorMap := true, logical := false, logicalConst := false, topNI := false, fieldNI := false, updater := false, updateInline := false, updateChecked := false, pushMod := false, stageImpl := false, exprHit := none, exprNI := false, grouping := false, groupInline := false, typeImpl := false, typeNone := false }
+  { op := true, comment := false, expr := false, not_ := false, all := false, exists_ := false, neNin := true, each := false, needsDecimal := false, operatorMap := true, logical := false, logicalConst := false, topNI := false, fieldNI := false, updater := false, updateInline := false, updateChecked := false, pushMod := false, stageImpl := false, exprHit := none, exprNI := false, grouping := false, groupInline := false, groupChecked := false, typeImpl := false, typeNone := false }
 def cls_13 : NameClass :=
-  { op := true, comment := false, expr := false, not_ := false, all := false, exists_ := false, neNin := false, each := false, needsDecimal := false, operatorMap := false, logical := false, logicalConst := false, topNI := false, fieldNI := false, updater := false, updateInline := false, updateChecked := false, pushMod := false, stageImpl := false, exprHit := some false, exprNI := false, grouping := false, groupInline := false, typeImpl := false, typeNone := false }
+  { op := true, comment := false, expr := false, not_ := false, all := false, exists_ := false, neNin := false, each := false, needsDecimal := false, operatorMap := false, logical := false, logicalConst := false, topNI := false, fieldNI := false, updater := false, updateInline := false, updateChecked := false, pushMod := false, stageImpl := false, exprHit := some false, exprNI := false, grouping := false, groupInline := false, groupChecked := false, typeImpl := false, typeNone := false }
 def cls_14 : NameClass :=
-  { op := true, comment := false, expr := false, not_ := false, all := false, exists_ := false, neNin := false, each := false, needsDecimal := false, operatorMap := false, logical := true, logicalConst := false, topNI := false, fieldNI := false, updater := false, updateInline := false, updateChecked := false, pushMod := false, stageImpl := false, exprHit := none, exprNI := false, grouping := false, groupInline := false, typeImpl := false, typeNone := false }
+  { op := true, comment := false, expr := false, not_ := false, all := false, exists_ := false, neNin := false, each := false, needsDecimal := false, operatorMap := false, logical := true, logicalConst := false, topNI := false, fieldNI := false, updater := false, updateInline := false, updateChecked := false, pushMod := false, stageImpl := false, exprHit := none, exprNI := false, grouping := false, groupInline := false, groupChecked := false, typeImpl := false, typeNone := false }
 def cls_15 : NameClass :=
-  { op := true, comment := false, expr := false, not_ := false, all := false, exists_ := false, neNin := false, each := false, needsDecimal := false, operatorMap := false, logical := false, logicalConst := false, topNI := false, fieldNI := false, updater := false, updateInline := false, updateChecked := false, pushMod := false, stageImpl := false, exprHit := some true, exprNI := true, grouping := false, groupInline := false, typeImpl := false, typeNone := false }
+  { op := true, comment := false, expr := false, not_ := false, all := false, exists_ := false, neNin := false, each := false, needsDecimal := false, operatorMap := false, logical := false, logicalConst := false, topNI := false, fieldNI := false, updater := false, updateInline := false, updateChecked := false, pushMod := false, stageImpl := false, exprHit := some true, exprNI := true, grouping := false, groupInline := false, groupChecked := false, typeImpl := false, typeNone := false }
 def cls_16 : NameClass :=
-  { op := true, comment := false, expr := false, not_ := false, all := false, exists_ := false, neNin := false, each := false, needsDecimal := false, operatorMap := false, logical := false, logicalConst := false, topNI := false, fieldNI := false, updater := true, updateInline := false, updateChecked := true, pushMod := false, stageImpl := true, exprHit := none, exprNI := false, grouping := false, groupInline := false, typeImpl := false, typeNone := false }
+  { op := true, comment := false, expr := false, not_ := false, all := false, exists_ := false, neNin := false, each := false, needsDecimal := false, operatorMap := false, logical := false, logicalConst := false, topNI := false, fieldNI := false, updater := true, updateInline := false, updateChecked := true, pushMod := false, stageImpl := true, exprHit := none, exprNI := false, grouping := false, groupInline := false, groupChecked := false, typeImpl := false, typeNone := false }
 def cls_17 : NameClass :=
-  { op := true, comment := false, expr := false, not_ := true, all := false, exists_ := false, neNin := false, each := false, needsDecimal := false, operatorMap := false, logical := true, logicalConst := true, topNI := false, fieldNI := false, updater := false, updateInline := false, updateChecked := false, pushMod := false, stageImpl := false, exprHit := some true, exprNI := false, grouping := false, groupInline := false, typeImpl := false, typeNone := false }
+  { op := true, comment := false, expr := false, not_ := true, all := false, exists_ := false, neNin := false, each := false, needsDecimal := false, operatorMap := false, logical := true, logicalConst := true, topNI := false, fieldNI := false, updater := false, updateInline := false, updateChecked := false, pushMod := false, stageImpl := false, exprHit := some true, exprNI := false, grouping := false, groupInline := false, groupChecked := false, typeImpl := false, typeNone := false }
 def cls_18 : NameClass :=
-  { op := true, comment := false, expr := false, not_ := false, all := false, exists_ := false, neNin := false, each := false, needsDecimal := false, operatorMap := false, logical := false, logicalConst := false, topNI := false, fieldNI := false, updater := false, updateInline := false, updateChecked := false, pushMod := false, stageImpl := true, exprHit := none, exprNI := false, grouping := false, groupInline := false, typeImpl := false, typeNone := false }
+  { op := true, comment := false, expr := false, not_ := false, all := false, exists_ := false, neNin := false, each := false, needsDecimal := false, operatorMap := false, logical := false, logicalConst := false, topNI := false, fieldNI := false, updater := false, updateInline := false, updateChecked := false, pushMod := false, stageImpl := true, exprHit := none, exprNI := false, grouping := false, groupInline := false, groupChecked := false, typeImpl := false, typeNone := false }
 def cls_19 : NameClass :=
-  { op := true, comment := false, expr := false, not_ := false, all := false, exists_ := false, neNin := false, each := false, needsDecimal := false, operatorMap := false, logical := false, logicalConst := false, topNI := false, fieldNI := false, updater := false, updateInline := false, updateChecked := false, pushMod := false, stageImpl := false, exprHit := none, exprNI := true, grouping := false, groupInline := false, typeImpl := false, typeNone := false }
+  { op := true, comment := false, expr := false, not_ := false, all := false, exists_ := false, neNin := false, each := false, needsDecimal := false, operatorMap := false, logical := false, logicalConst := false, topNI := false, fieldNI := false, updater := false, updateInline := false, updateChecked := false, pushMod := false, stageImpl := false, exprHit := none, exprNI := true, grouping := false, groupInline := false, groupChecked := false, typeImpl := false, typeNone := false }
 def cls_20 : NameClass :=
-  { op := true, comment := false, expr := false, not_ := false, all := false, exists_ := false, neNin := false, each := false, needsDecimal := false, operatorMap := true, logical := false, logicalConst := false, topNI := false, fieldNI := false, updater := false, updateInline := false, updateChecked := false, pushMod := false, stageImpl := false, exprHit := none, exprNI := false, grouping := false, groupInline := false, typeImpl := false, typeNone := false }
+  { op := true, comment := false, expr := false, not_ := false, all := false, exists_ := false, neNin := false, each := false, needsDecimal := false, operatorMap := true, logical := false, logicalConst := false, topNI := false, fieldNI := false, updater := false, updateInline := false, updateChecked := false, pushMod := false, stageImpl := false, exprHit := none, exprNI := false, grouping := false, groupInline := false, groupChecked := false, typeImpl := false, typeNone := false }
 def cls_21 : NameClass :=
-  { op := true, comment := false, expr := false, not_ := false, all := false, exists_ := false, neNin := false, each := true, needsDecimal := false, operatorMap := false, logical := false, logicalConst := false, topNI := false, fieldNI := false, updater := false, updateInline := false, updateChecked := false, pushMod := true, stageImpl := false, exprHit := none, exprNI := false, grouping := false, groupInline := false, typeImpl := false, typeNone := false }
+  { op := true, comment := false, expr := false, not_ := false, all := false, exists_ := false, neNin := false, each := true, needsDecimal := false, operatorMap := false, logical := false, logicalConst := false, topNI := false, fieldNI := false, updater := false, updateInline := false, updateChecked := false, pushMod := true, stageImpl := false, exprHit := none, exprNI := false, grouping := false, groupInline := false, groupChecked := false, typeImpl := false, typeNone := false }
 def cls_22 : NameClass :=
-  { op := true, comment := false, expr := false, not_ := false, all := false, exists_ := false, neNin := false, each := false, needsDecimal := false, operatorMap := false, logical := false, logicalConst := false, topNI := false, fieldNI := false, updater := false, updateInline := true, updateChecked := true, pushMod := false, stageImpl := false, exprHit := none, exprNI := false, grouping := false, groupInline := true, typeImpl := false, typeNone := false }
+  { op := true, comment := false, expr := false, not_ := false, all := false, exists_ := false, neNin := false, each := false, needsDecimal := false, operatorMap := false, logical := false, logicalConst := false, topNI := false, fieldNI := false, updater := false, updateInline := true, updateChecked := true, pushMod := false, stageImpl := false, exprHit := none, exprNI := false, grouping := false, groupInline := true, groupChecked := true, typeImpl := false, typeNone := false }
 def cls_23 : NameClass :=
-  { op := true, comment := false, expr := false, not_ := false, all := false, exists_ := false, neNin := false, each := false, needsDecimal := false, operatorMap := false, logical := false, logicalConst := false, topNI := false, fieldNI := false, updater := false, updateInline := true, updateChecked := true, pushMod := false, stageImpl := false, exprHit := none, exprNI := false, grouping := false, groupInline := false, typeImpl := false, typeNone := false }
+  { op := true, comment := false, expr := false, not_ := false, all := false, exists_ := false, neNin := false, each := false, needsDecimal := false, operatorMap := false, logical := false, logicalConst := false, topNI := false, fieldNI := false, updater := false, updateInline := true, updateChecked := true, pushMod := false, stageImpl := false, exprHit := none, exprNI := false, grouping := false, groupInline := false, groupChecked := false, typeImpl := false, typeNone := false }
 def cls_24 : NameClass :=
-  { op := true, comment := false, expr := false, not_ := false, all := false, exists_ := false, neNin := false, each := false, needsDecimal := false, operatorMap := false, logical := false, logicalConst := false, topNI := false, fieldNI := true, updater := false, updateInline := false, updateChecked := false, pushMod := false, stageImpl := false, exprHit := none, exprNI := false, grouping := false, groupInline := false, typeImpl := false, typeNone := false }
+  { op := true, comment := false, expr := false, not_ := false, all := false, exists_ := false, neNin := false, each := false, needsDecimal := false, operatorMap := false, logical := false, logicalConst := false, topNI := false, fieldNI := true, updater := false, updateInline := false, updateChecked := false, pushMod := false, stageImpl := false, exprHit := none, exprNI := false, grouping := false, groupInline := false, groupChecked := false, typeImpl := false, typeNone := false }
 def cls_25 : NameClass :=
-  { op := true, comment := false, expr := true, not_ := false, all := false, exists_ := false, neNin := false, each := false, needsDecimal := false, operatorMap := false, logical := false, logicalConst := false, topNI := true, fieldNI := false, updater := false, updateInline := false, updateChecked := false, pushMod := false, stageImpl := false, exprHit := none, exprNI := false, grouping := false, groupInline := false, typeImpl := false, typeNone := false }
+  { op := true, comment := false, expr := true, not_ := false, all := false, exists_ := false, neNin := false, each := false, needsDecimal := false, operatorMap := false, logical := false, logicalConst := false, topNI := true, fieldNI := false, updater := false, updateInline := false, updateChecked := false, pushMod := false, stageImpl := false, exprHit := none, exprNI := false, grouping := false, groupInline := false, groupChecked := false, typeImpl := false, typeNone := false }
 def cls_26 : NameClass :=
-  { op := true, comment := false, expr := false, not_ := false, all := false, exists_ := false, neNin := false, each := false, needsDecimal := false, operatorMap := false, logical := false, logicalConst := false, topNI := false, fieldNI := false, updater := false, updateInline := false, updateChecked := false, pushMod := true, stageImpl := true, exprHit := none, exprNI := false, grouping := false, groupInline := false, typeImpl := false, typeNone := false }
+  { op := true, comment := false, expr := false, not_ := false, all := false, exists_ := false, neNin := false, each := false, needsDecimal := false, operatorMap := false, logical := false, logicalConst := false, topNI := false, fieldNI := false, updater := false, updateInline := false, updateChecked := false, pushMod := true, stageImpl := true, exprHit := none, exprNI := false, grouping := false, groupInline := false, groupChecked := false, typeImpl := false, typeNone := false }
 def cls_27 : NameClass :=
-  { op := true, comment := false, expr := false, not_ := false, all := false, exists_ := false, neNin := false, each := false, needsDecimal := false, operatorMap := false, logical := false, logicalConst := false, topNI := true, fieldNI := false, updater := false, updateInline := false, updateChecked := false, pushMod := false, stageImpl := false, exprHit := none, exprNI := false, grouping := false, groupInline := false, typeImpl := false, typeNone := false }
+  { op := true, comment := false, expr := false, not_ := false, all := false, exists_ := false, neNin := false, each := false, needsDecimal := false, operatorMap := false, logical := false, logicalConst := false, topNI := true, fieldNI := false, updater := false, updateInline := false, updateChecked := false, pushMod := false, stageImpl := false, exprHit := none, exprNI := false, grouping := false, groupInline := false, groupChecked := false, typeImpl := false, typeNone := false }
 def cls_28 : NameClass :=
-  { op := true, comment := false, expr := false, not_ := false, all := false, exists_ := false, neNin := false, each := false, needsDecimal := false, operatorMap := false, logical := false, logicalConst := false, topNI := false, fieldNI := false, updater := false, updateInline := false, updateChecked := false, pushMod := true, stageImpl := false, exprHit := some true, exprNI := false, grouping := false, groupInline := false, typeImpl := false, typeNone := false }
+  { op := true, comment := false, expr := false, not_ := false, all := false, exists_ := false, neNin := false, each := false, needsDecimal := false, operatorMap := false, logical := false, logicalConst := false, topNI := false, fieldNI := false, updater := false, updateInline := false, updateChecked := false, pushMod := true, stageImpl := false, exprHit := some true, exprNI := false, grouping := false, groupInline := false, groupChecked := false, typeImpl := false, typeNone := false }
 def cls_29 : NameClass :=
-  { op := true, comment := false, expr := false, not_ := false, all := false, exists_ := false, neNin := false, each := false, needsDecimal := true, operatorMap := false, logical := false, logicalConst := false, topNI := false, fieldNI := false, updater := false, updateInline := false, updateChecked := false, pushMod := false, stageImpl := false, exprHit := some true, exprNI := false, grouping := false, groupInline := false, typeImpl := false, typeNone := false }
+  { op := true, comment := false, expr := false, not_ := false, all := false, exists_ := false, neNin := false, each := false, needsDecimal := true, operatorMap := false, logical := false, logicalConst := false, topNI := false, fieldNI := false, updater := false, updateInline := false, updateChecked := false, pushMod := false, stageImpl := false, exprHit := some true, exprNI := false, grouping := false, groupInline := false, groupChecked := false, typeImpl := false, typeNone := false }
 def cls_30 : NameClass :=
-  { op := true, comment := false, expr := false, not_ := false, all := false, exists_ := true, neNin := false, each := false, needsDecimal := false, operatorMap := true, logical := false, logicalConst := false, topNI := false, fieldNI := false, updater := false, updateInline := false, updateChecked := false, pushMod := false, stageImpl := false, exprHit := none, exprNI := false, grouping := false, groupInline := false, typeImpl := false, typeNone := false }
+  { op := true, comment := false, expr := false, not_ := false, all := false, exists_ := true, neNin := false, each := false, needsDecimal := false, operatorMap := true, logical := false, logicalConst := false, topNI := false, fieldNI := false, updater := false, updateInline := false, updateChecked := false, pushMod := false, stageImpl := false, exprHit := none, exprNI := false, grouping := false, groupInline := false, groupChecked := false, typeImpl := false, typeNone := false }
 def cls_31 : NameClass :=
-  { op := true, comment := true, expr := false, not_ := false, all := false, exists_ := false, neNin := false, each := false, needsDecimal := false, operatorMap := false, logical := false, logicalConst := false, topNI := false, fieldNI := false, updater := false, updateInline := false, updateChecked := false, pushMod := false, stageImpl := false, exprHit := none, exprNI := false, grouping := false, groupInline := false, typeImpl := false, typeNone := false }
+  { op := true, comment := true, expr := false, not_ := false, all := false, exists_ := false, neNin := false, each := false, needsDecimal := false, operatorMap := false, logical := false, logicalConst := false, topNI := false, fieldNI := false, updater := false, updateInline := false, updateChecked := false, pushMod := false, stageImpl := false, exprHit := none, exprNI := false, grouping := false, groupInline := false, groupChecked := false, typeImpl := false, typeNone := false }
 def cls_32 : NameClass :=
-  { op := true, comment := false, expr := false, not_ := false, all := false, exists_ := false, neNin := false, each := false, needsDecimal := false, operatorMap := false, logical := false, logicalConst := false, topNI := false, fieldNI := false, updater := false, updateInline := false, updateChecked := false, pushMod := true, stageImpl := false, exprHit := none, exprNI := false, grouping := false, groupInline := false, typeImpl := false, typeNone := false }
+  { op := true, comment := false, expr := false, not_ := false, all := false, exists_ := false, neNin := false, each := false, needsDecimal := false, operatorMap := false, logical := false, logicalConst := false, topNI := false, fieldNI := false, updater := false, updateInline := false, updateChecked := false, pushMod := true, stageImpl := false, exprHit := none, exprNI := false, grouping := false, groupInline := false, groupChecked := false, typeImpl := false, typeNone := false }
 def cls_33 : NameClass :=
-  { op := true, comment := false, expr := false, not_ := false, all := false, exists_ := false, neNin := false, each := false, needsDecimal := false, operatorMap := false, logical := false, logicalConst := false, topNI := false, fieldNI := false, updater := false, updateInline := false, updateChecked := false, pushMod := false, stageImpl := false, exprHit := none, exprNI := true, grouping := true, groupInline := false, typeImpl := false, typeNone := false }
+  { op := true, comment := false, expr := false, not_ := false, all := false, exists_ := false, neNin := false, each := false, needsDecimal := false, operatorMap := false, logical := false, logicalConst := false, topNI := false, fieldNI := false, updater := false, updateInline := false, updateChecked := false, pushMod := false, stageImpl := false, exprHit := none, exprNI := true, grouping := true, groupInline := false, groupChecked := true, typeImpl := false, typeNone := false }
 
 /-! distinct vectors of observed dispositions -/
 def dv_0 : List (Position × Disposition) :=
